@@ -10,7 +10,7 @@ use varlink::{CallTrait, Interface};
 use vl_model::ctx::{hash64, load_replay, Args, Ctx};
 use vl_model::jsongen::{json_object, json_string, json_value};
 use vl_model::pt::{self, Fail};
-use vl_model::svc;
+use vl_tsvc as svc;
 use vl_model::wire::*;
 
 pub const RULE: &str = "services with 0..6 hand-written recording interfaces whose names are built from the \
